@@ -356,7 +356,10 @@ class FaultWorld(sched.World):
 
 def fault_sweep(sub, chunk):
     """The same commit re-run from a fresh copy with one failure injected per run."""
-    from breezy import branch as _b, workingtree
+    from breezy import branch as _b, workingtree, lockdir
+    # a failed unlock leaves the lock on disk; a later lock attempt of the same commit must give up quickly
+    lockdir._DEFAULT_TIMEOUT_SECONDS = 2
+    lockdir._DEFAULT_POLL_SECONDS = 0.05
     rows = sub.cov.setdefault("_collect", [])
     for job in chunk:
         fmt, bname, tplb, st, combo, points = job["fmt"], job["basis"], job["tplb"], job["st"], job["combo"], job["points"]
